@@ -89,6 +89,12 @@ impl RwLock {
     }
 
     pub(crate) fn release_read_lock(&self) {
+        // Releasing the lock is visible to other threads (a `try_write` fails
+        // until it happened), so it is a point where they may be scheduled.
+        if !std::thread::panicking() {
+            self.state.branch_try(Location::disabled());
+        }
+
         super::execution(|execution| {
             let state = self.state.get_mut(&mut execution.objects);
             let thread_id = execution.threads.active_id();
@@ -116,6 +122,11 @@ impl RwLock {
     }
 
     pub(crate) fn release_write_lock(&self) {
+        // See `release_read_lock`
+        if !std::thread::panicking() {
+            self.state.branch_try(Location::disabled());
+        }
+
         super::execution(|execution| {
             let state = self.state.get_mut(&mut execution.objects);
 
